@@ -202,6 +202,26 @@ func parseCertList(body []byte) ([][]byte, error) {
 	return out, nil
 }
 
+// parseCertList13: body of a TLS 1.3 Certificate message -> the cert_data of its entries (extensions skipped).
+func parseCertList13(body []byte) ([][]byte, error) {
+	r := &rd{b: body}
+	ctx := r.vec8()
+	l := &rd{b: r.vec24()}
+	if r.bad || !r.empty() || len(ctx) != 0 {
+		return nil, errWire
+	}
+	var out [][]byte
+	for !l.empty() {
+		c := l.vec24()
+		l.vec16()
+		if l.bad {
+			return nil, errWire
+		}
+		out = append(out, c)
+	}
+	return out, nil
+}
+
 type wSKX struct {
 	// ECDHE
 	curveType, curve int
